@@ -1,14 +1,252 @@
-//! C16 — stub, to be implemented.
-#![allow(dead_code)]
+//! C16 — resources return to baseline and admission limits are never exceeded (H1 tier).
+use std::collections::BTreeMap;
+
+use serde::{Deserialize, Serialize};
 use serde_json::Value;
+use sozu_command_lib::proto::command::{
+    filtered_metrics::Inner, request::RequestType, response_content::ContentType, QueryMetricsOptions, Request, ResponseStatus,
+};
+
+use super::c01;
+use crate::actors::h1::*;
+use crate::actors::master::MOp;
+use crate::actors::Pace;
 use crate::framework::*;
+use crate::netsim::{self, Knobs};
+use crate::prng::Prng;
+use crate::scenario::*;
+use crate::world::{MS, SEC};
 
 pub struct C16;
 
+#[derive(Clone, Debug, Serialize, Deserialize)]
+pub struct Plan {
+    pub http: HttpPlan,
+    pub settle_s: u64,
+    pub storm: bool,
+}
+
+const GAUGES: &[&str] = &["client.connections", "slab.entries", "buffer.in_use", "http.active_requests", "accept_queue.connections", "accept_queue.backpressure", "backend.connections"];
+
+fn metrics_query() -> Request {
+    RequestType::QueryMetrics(QueryMetricsOptions { list: false, cluster_ids: vec![], backend_ids: vec![], metric_names: vec![], no_clusters: false, workers: false }).into()
+}
+
+pub fn generate(seed: u64, tier: Tier) -> Plan {
+    let mut rng = Prng::derive(seed, "c16/plan");
+    let faulty = rng.below(3) == 0;
+    let mut knobs = Knobs::default();
+    knobs.max_connections = *rng.pick(&[2usize, 3, 5, 8, 16, 64]);
+    knobs.accept_queue_timeout = *rng.pick(&[2u32, 5, 60]);
+    knobs.front_timeout = *rng.pick(&[5u32, 20]);
+    knobs.back_timeout = *rng.pick(&[2u32, 10]);
+    knobs.request_timeout = *rng.pick(&[2u32, 5]);
+    knobs.connect_timeout = *rng.pick(&[1u32, 3]);
+    knobs.max_buffers = *rng.pick(&[1000u64, 200, 40]);
+    let storm = rng.below(2) == 0;
+    let cap = match tier { Tier::Quick => 24, Tier::Thorough => 60 };
+    let nclients = if storm { (knobs.max_connections as u64 * (1 + rng.below(3)) + rng.below(4)).min(cap) as usize } else { 1 + rng.below(knobs.max_connections.min(8) as u64) as usize };
+    let front = "10.0.0.1:80".parse().unwrap();
+    let max_body = 40_000;
+    let mut next_id = 1u64;
+    let mut resp0 = BTreeMap::new();
+    let mut respx = BTreeMap::new();
+    let mut clients = Vec::new();
+    let wait = (knobs.front_timeout + knobs.back_timeout + knobs.request_timeout + knobs.accept_queue_timeout + knobs.connect_timeout * 4) as u64;
+    for ci in 0..nclients {
+        let nreq = 1 + rng.below(3) as usize;
+        let mut reqs = Vec::new();
+        for _ in 0..nreq {
+            let id = next_id; next_id += 1;
+            let kind = rng.below(10);
+            let host = match kind { 0 => "nohost.test", 1 | 2 | 3 => "cx.test", 4 => "cr.test", _ => "c0.test" };
+            let mut r = ReqSpec::get(id, host, &format!("/r/{id}"));
+            let body = random_body(&mut rng, knobs.buffer_size as usize, max_body, false);
+            r.body = match body { BodySpec::Close(n) => BodySpec::Cl(n), b => b };
+            if r.body != BodySpec::None { r.method = "POST".into(); } else { r.headers.push(("Content-Length".into(), "0".into())); }
+            let mut resp = RespSpec::ok(random_body(&mut rng, knobs.buffer_size as usize, max_body, true));
+            if let BodySpec::Close(n) = resp.body { resp.body = BodySpec::Cl(n); }
+            if host == "cx.test" {
+                let len = resp.render(id).len();
+                resp.fault = match rng.below(5) { 0 => Some(RespFault::CloseAt(rng.below(len as u64) as usize)), 1 => Some(RespFault::StallAt(rng.below(len as u64) as usize)), 2 => Some(RespFault::Garbage(b"garbage\r\n\r\n".to_vec())), 3 => { resp.delay_ns = (knobs.back_timeout as u64 + 1) * SEC; None }, _ => None };
+                respx.insert(id, resp);
+            } else {
+                resp0.insert(id, resp);
+            }
+            reqs.push(r);
+        }
+        let total: usize = reqs.iter().map(|r| r.render().len()).sum();
+        let abort = match rng.below(8) {
+            0 => Some(ClientAbort::CloseAtSent(1 + rng.below(total as u64) as usize)),
+            1 => Some(ClientAbort::CloseAtRecv(1 + rng.below(3000) as usize)),
+            2 => Some(ClientAbort::StallAtSent(1 + rng.below(total as u64) as usize)),
+            3 => Some(ClientAbort::HalfCloseAfterSend),
+            _ => None,
+        };
+        clients.push(ClientPlan {
+            name: format!("cl{ci}"),
+            // several clients share simulated IPs
+            src: format!("192.0.2.{}:{}", 7 + ci % 5, 40001 + ci).parse().unwrap(),
+            dst: front,
+            start_ns: rng.below(if storm { 2 } else { 40 } * MS),
+            pace: Pace::random_budget(&mut rng, 60000, 200_000_000),
+            pipeline: false,
+            requests: reqs,
+            abort,
+            sndbuf: None,
+            think_ns: rng.below(2) * rng.below(20 * MS),
+            linger_ns: if rng.below(4) == 0 { rng.below((knobs.front_timeout as u64 + 2) * SEC) } else { 0 },
+            give_up_ns: (wait + 10) * SEC,
+            wait_board: None,
+        });
+    }
+    // the probe: a well-behaved client that starts only after quiescence
+    let pid = next_id;
+    let mut pr = ReqSpec::get(pid, "c0.test", "/probe");
+    pr.headers.push(("Content-Length".into(), "0".into()));
+    resp0.insert(pid, RespSpec::ok(BodySpec::Cl(1234)));
+    clients.push(ClientPlan { name: "probe".into(), src: "192.0.2.200:50000".parse().unwrap(), dst: front, start_ns: 0, pace: Pace::greedy(), pipeline: false, requests: vec![pr], abort: None, sndbuf: None, think_ns: 0, linger_ns: 0, give_up_ns: (wait + 10) * SEC, wait_board: Some("probe_go".into()) });
+    let mk = |name: &str, addr: &str, responses: BTreeMap<u64, RespSpec>, rng: &mut Prng| BackendPlan { name: name.into(), addr: addr.parse().unwrap(), pace: Pace::random_budget(rng, 100_000, 200_000_000), responses, default: RespSpec::ok(BodySpec::Cl(3)), close_on_accept: vec![], listen_from_ns: 0, listen_until_ns: 0 };
+    let clusters = vec![
+        ClusterPlan { id: "c0".into(), host: "c0.test".into(), backends: vec![(mk("b0", "10.1.0.1:8000", resp0, &mut rng), BackendMode::Listen { delay_ns: 0 })] },
+        ClusterPlan { id: "cx".into(), host: "cx.test".into(), backends: vec![(mk("bx", "10.2.0.1:8000", respx, &mut rng), BackendMode::Listen { delay_ns: rng.below(2) * rng.below(5 * MS) })] },
+        ClusterPlan { id: "cr".into(), host: "cr.test".into(), backends: vec![(mk("br", "10.3.0.1:8000", BTreeMap::new(), &mut rng), if rng.below(2) == 0 { BackendMode::Refuse { delay_ns: 0 } } else { BackendMode::Blackhole })] },
+    ];
+    let http = HttpPlan {
+        seed, family: format!("h1_{}{}", if storm { "storm" } else { "mix" }, if faulty { "+buggify" } else { "" }), knobs: knobs.clone(), sched: netsim::default_sched(&mut rng, faulty), front, clusters, clients,
+        sndbufs: if rng.below(3) == 0 { Some(vec![0, 4608, 32768]) } else { None }, settle_ns: 0, extra_frontends: vec![],
+    };
+    Plan { http, settle_s: wait + 5, storm }
+}
+
+fn gauges_of(o: &HttpOutcome, id: &str) -> Option<BTreeMap<String, u64>> {
+    let r = o.responses.iter().map(|(_, r)| r).find(|r| r.id == id && r.status == ResponseStatus::Ok as i32)?;
+    let content = r.content.as_ref()?.content_type.as_ref()?;
+    let ContentType::WorkerMetrics(wm) = content else { return None };
+    let mut m = BTreeMap::new();
+    for (k, v) in &wm.proxy { if let Some(Inner::Gauge(g)) = v.inner { m.insert(k.clone(), g); } }
+    for (cid, cm) in &wm.clusters {
+        for (k, v) in &cm.cluster { if let Some(Inner::Gauge(g)) = v.inner { m.insert(format!("{cid}/{k}"), g); } }
+        for b in &cm.backends { for (k, v) in &b.metrics { if let Some(Inner::Gauge(g)) = v.inner { m.insert(format!("{cid}/{}/{k}", b.backend_id), g); } } }
+    }
+    Some(m)
+}
+
+pub fn run(p: &Plan, log: bool) -> HttpOutcome {
+    let settle = p.settle_s * SEC;
+    let script: MasterScript = Box::new(move |m, reqs, nclients| {
+        m.send_all(reqs);
+        m.push(MOp::Barrier);
+        m.push(MOp::SendId("Q0".into(), metrics_query()));
+        m.push(MOp::Barrier);
+        m.push(MOp::SetBoard("configured".into(), 1));
+        m.push(MOp::WaitBoard("clients_done".into(), nclients - 1));
+        m.push(MOp::Sleep(settle));
+        m.push(MOp::Call(Box::new(|w, _| {
+            let a = w.sozu_fds.values().filter(|k| **k == 'a').count() as i64;
+            let c = w.sozu_fds.values().filter(|k| **k == 'c').count() as i64;
+            w.board_set("leak_accepted", a);
+            w.board_set("leak_connected", c);
+            w.board_set("quiesced", 1);
+            vec![]
+        })));
+        m.push(MOp::SendId("Q1".into(), metrics_query()));
+        m.push(MOp::Barrier);
+        m.push(MOp::SetBoard("probe_go".into(), 1));
+        m.push(MOp::WaitBoard("clients_done".into(), nclients));
+        m.push(MOp::Sleep(2 * SEC));
+        m.push(MOp::HardStop);
+    });
+    run_http_script(&p.http, log, Some(script))
+}
+
+pub fn oracle(p: &Plan, o: &HttpOutcome) -> Vec<Violation> {
+    let mut v = Vec::new();
+    if let Some(pn) = &o.panicked { v.push(Violation::new("panic", "worker", pn.clone())); }
+    if let Some(a) = &o.aborted { v.push(Violation::new("no_exit", a.clone(), format!("run aborted: {a}"))); }
+    let maxc = p.http.knobs.max_connections;
+    if o.max_served > maxc {
+        v.push(Violation::new("over_max_connections", "served", format!("{} client connections were being served at once, max_connections = {maxc}", o.max_served)));
+    }
+    if o.board.get("quiesced").copied().unwrap_or(0) == 1 {
+        let la = o.board.get("leak_accepted").copied().unwrap_or(0);
+        let lc = o.board.get("leak_connected").copied().unwrap_or(0);
+        if la > 0 { v.push(Violation::new("fd_leak", "client_socket", format!("{la} accepted client socket(s) still open {} s after the last client finished", p.settle_s))); }
+        if lc > 0 { v.push(Violation::new("fd_leak", "backend_socket", format!("{lc} backend socket(s) still open {} s after the last client finished", p.settle_s))); }
+    } else {
+        v.push(Violation::new("no_exit", "never_quiesced", "clients never all finished".to_string()));
+    }
+    match (gauges_of(o, "Q0"), gauges_of(o, "Q1")) {
+        (Some(base), Some(end)) => {
+            for (k, e) in &end {
+                let name = k.rsplit('/').next().unwrap_or(k);
+                if !GAUGES.contains(&name) { continue; }
+                let b = base.get(k).copied().unwrap_or(0);
+                if *e != b {
+                    v.push(Violation::new("gauge_not_baseline", name.to_string(), format!("gauge {k} = {e} at quiescence, baseline {b}")));
+                }
+                if *e > (1u64 << 31) { v.push(Violation::new("gauge_underflow", name.to_string(), format!("gauge {k} = {e}"))); }
+            }
+        }
+        _ => v.push(Violation::new("no_metrics", "query_failed", "QueryMetrics did not return worker metrics".to_string())),
+    }
+    // accepting resumes: the probe is served
+    let probe = o.clients.last().unwrap();
+    let pid = p.http.clients.last().unwrap().requests[0].id;
+    match probe.responses.first() {
+        Some(m) if m.sim_id == Some(pid) && m.complete && m.body_ok() && m.body_len == 1234 => {}
+        other => v.push(Violation::new("accept_not_resumed", "probe", format!("probe after quiescence was not served: {:?} rec={:?}", other.map(|m| m.start.clone()), probe.rec))),
+    }
+    v
+}
+
 impl Property for C16 {
     fn id(&self) -> &'static str { "C16" }
-    fn runs(&self, _tier: Tier) -> u64 { 0 }
-    fn gen_plan(&self, _seed: u64, _tier: Tier) -> Value { Value::Null }
-    fn run_plan(&self, _plan: &Value) -> RunReport { RunReport { harness_error: Some("not implemented".into()), ..Default::default() } }
-    fn descr(&self) -> Descr { Descr { level: "exploration", rule: "", assumptions: vec![], real: vec![], stub: vec![], not_covered: vec![] } }
+    fn runs(&self, tier: Tier) -> u64 { match tier { Tier::Quick => 3000, Tier::Thorough => 60000 } }
+    fn gen_plan(&self, seed: u64, tier: Tier) -> Value { serde_json::to_value(generate(seed, tier)).unwrap() }
+    fn run_plan(&self, plan: &Value) -> RunReport {
+        let p: Plan = match serde_json::from_value(plan.clone()) { Ok(p) => p, Err(e) => return RunReport { harness_error: Some(format!("bad plan: {e}")), ..Default::default() } };
+        let o = run(&p, false);
+        let violations = oracle(&p, &o);
+        let mut rep = RunReport { seed: p.http.seed, family: p.http.family.clone(), violations, trace_hash: o.trace_hash, stats: o.stats.clone(), ..Default::default() };
+        rep.summary = format!("max_connections={} clients={} storm={} accept_queue_timeout={}s front={}s back={}s; outcomes: {}", p.http.knobs.max_connections, p.http.clients.len() - 1, p.storm, p.http.knobs.accept_queue_timeout, p.http.knobs.front_timeout, p.http.knobs.back_timeout,
+            o.clients.iter().map(|c| if c.rec.connect_err.is_some() { "refused" } else if c.rec.gave_up { "gave_up" } else if c.rec.aborted { "aborted" } else if c.rec.eof { "closed_by_sozu" } else { "done" }).collect::<Vec<_>>().join(","));
+        rep.nontrivial = o.clients.iter().any(|c| !c.responses.is_empty());
+        rep.probes.insert("max_served_equals_limit".into(), (o.max_served == p.http.knobs.max_connections) as u64);
+        rep.probes.insert("queued_beyond_limit".into(), (o.max_open_accepted > p.http.knobs.max_connections) as u64);
+        rep.probes.insert("clients_closed_by_sozu".into(), o.clients.iter().filter(|c| c.rec.eof).count() as u64);
+        rep.probes.insert("clients_gave_up".into(), o.clients.iter().filter(|c| c.rec.gave_up).count() as u64);
+        rep.probes.insert("proxy_answers".into(), o.clients.iter().flat_map(|c| c.responses.iter()).filter(|m| m.sim_id.is_none()).count() as u64);
+        if let Some(e) = o.boot_error { rep.harness_error = Some(format!("worker boot failed: {e}")); }
+        rep
+    }
+    fn shrink(&self, plan: &Value) -> Vec<Value> {
+        let Ok(p) = serde_json::from_value::<Plan>(plan.clone()) else { return vec![] };
+        let mut out = Vec::new();
+        for h in c01::shrink_http(&p.http) {
+            if h.clients.last().map(|c| c.name.as_str()) != Some("probe") { continue; }
+            if h.clusters.len() != 3 { continue; }
+            let mut q = p.clone(); q.http = h; out.push(serde_json::to_value(q).unwrap());
+        }
+        out
+    }
+    fn debug_plan(&self, plan: &Value) -> String {
+        let p: Plan = serde_json::from_value(plan.clone()).unwrap();
+        let o = run(&p, true);
+        let mut s = String::new();
+        for l in &o.log { s += l; s.push('\n'); }
+        s += &format!("board={:?} max_served={} max_open_accepted={}\nQ0={:?}\nQ1={:?}\n", o.board, o.max_served, o.max_open_accepted, gauges_of(&o, "Q0"), gauges_of(&o, "Q1"));
+        for (i, c) in o.clients.iter().enumerate() { s += &format!("client {i} {}: {:?} responses={:?}\n", p.http.clients[i].name, c.rec, c.responses.iter().map(|m| m.start.clone()).collect::<Vec<_>>()); }
+        s
+    }
+    fn descr(&self) -> Descr {
+        Descr {
+            level: "exploration",
+            rule: "seeded mixes of H1 session outcomes (complete, client abort at a byte offset, client stall, half-close, backend close/stall/garbage/slow, refused or black-holed backends, unknown host) with max_connections 2..64 and connection storms up to 3x the limit; oracles: sockets sozu is serving at once (accepted, touched, not closed - counted by the hooks) never exceed max_connections; after all peers left and virtual time passed every timeout no accepted/connected socket remains, the gauges client.connections/slab.entries/buffer.in_use/http.active_requests/accept_queue.*/backend.connections read through QueryMetrics equal their pre-traffic baseline, and a fresh probe client is served; non-trivial = at least one response delivered; distinct = trace hashes",
+            assumptions: vec!["AF_UNIX stands in for TCP", "release semantics"],
+            real: vec!["sozu_lib::server::Server::run incl. SessionManager, accept queue, timers, zombie checker, metrics local drain, QueryMetrics"],
+            stub: vec!["IP network", "clock", "entropy", "clients", "backends", "master"],
+            not_covered: vec!["per-(cluster, IP) limits and SetMaxConnectionsPerIp", "H2/TLS/TCP/WebSocket sessions", "gauge-underflow log line (only values > 2^31 are flagged)"],
+        }
+    }
 }
